@@ -406,11 +406,76 @@ static void ctor_family(int maxsz) {
     }
     vc_sample("qhasharr(mem, n) for every n in 1..%d: NULL/EINVAL below %zu bytes, else (n-%zu)/%zu slots, filled to capacity and read back", maxsz, hdr + slot, hdr, slot);
 }
+/* one collision chain of every length 1..L: all keys share home slot 0 of a table with more than L slots. The keys are
+ * 4-byte strings computed by inverting MurmurHash3 x86_32 for the hash values 0, M, 2M, ... (checked against the
+ * independent forward implementation). The per-bucket collision counter of the image is 16 bits wide. */
+static uint32_t inv32(uint32_t a) { uint32_t x = a; for (int i = 0; i < 5; i++) x *= 2 - a * x; return x; }   /* inverse of an odd number mod 2^32 */
+static uint32_t rh_ror32(uint32_t x, int r) { return (x >> r) | (x << (32 - r)); }
+static uint32_t mm32_invert4(uint32_t h) {      /* the 4-byte key (little endian) whose MurmurHash3_x86_32 is h */
+    h ^= h >> 16; h *= inv32(0xc2b2ae35u); h ^= h >> 13; h ^= h >> 26; h *= inv32(0x85ebca6bu); h ^= h >> 16;
+    h ^= 4; h = (h - 0xe6546b64u) * inv32(5); h = rh_ror32(h, 13);
+    uint32_t k = h; k *= inv32(0x1b873593u); k = rh_ror32(k, 15); k *= inv32(0xcc9e2d51u); return k;
+}
+static void chain_family(int L) {
+    M = L + 5; REGSZ = qhasharr_calculate_memsize(M);
+    unsigned char *blk = malloc(REGSZ); qhasharr_t *t = qhasharr(blk, REGSZ);
+    uint32_t *keys = malloc(sizeof(uint32_t) * (L + 1));
+    for (int j = 0; j <= L; j++) { keys[j] = mm32_invert4((uint32_t)j * (uint32_t)M); if (ref_mm32(&keys[j], 4) % (uint32_t)M != 0) { printf("NOTE\tkey inversion failed\n"); vc_stat_add("replay_divergence", 1); return; } }
+    int stored = 0, step = 512, bad = 0, n_limit = 0;
+    for (int lo = 1; lo <= L && !bad && !n_limit; lo += step) {
+        int hi = lo + step - 1 > L ? L : lo + step - 1;
+        char key[64]; snprintf(key, sizeof key, "hasharr-chain:%d:%d", lo, hi);
+        if (!vc_case("qhasharr_put_by_obj", key)) { bad = 1; break; }     /* a crash inside an earlier block: the table state is gone */
+        for (int n = lo; n <= hi; n++) {
+            errno = 0; bool r = t->put_by_obj(t, &keys[n - 1], 4, "v", 1); int e = errno;
+            if (!r) {
+                /* n-1 of M slots are used: by the property this put must succeed */
+                if (e == ENOBUFS) vc_viol("space:chain-limit", "put of the %dth key with the same home slot refused with ENOBUFS although %d of %d slots are free", n, M - stored, M);
+                else vc_viol("space:put-decision", "put of the %dth colliding key failed with errno %d", n, e);
+                /* a refused put alters nothing: all keys still there, counters unchanged; and after one removal the same put succeeds */
+                int lost = 0; for (int j = 0; j < stored; j++) { char *d = t->get_by_obj(t, &keys[j], 4, NULL); if (!d) lost++; free(d); }
+                int mx, us, num = t->size(t, &mx, &us);
+                if (lost || num != stored || us != stored) vc_viol("space:failed-put-altered", "the refused put of key %d altered the table: %d keys lost, size triple (%d,%d,%d)", n, lost, num, mx, us);
+                if (!t->remove_by_obj(t, &keys[stored / 2], 4) || !t->put_by_obj(t, &keys[n - 1], 4, "v", 1) || t->put_by_obj(t, &keys[stored / 2], 4, "v", 1)) vc_viol("space:put-decision", "after removing one key of the full chain the refused key cannot be stored (or the chain limit is not enforced again)");
+                keys[stored / 2] = keys[n - 1]; n_limit = 1;
+                break;
+            }
+            stored = n;
+            size_t sz = 0; char *d = t->get_by_obj(t, &keys[n - 1], 4, &sz);
+            if (!d || sz != 1 || d[0] != 'v') { vc_viol("image:get-missing", "chain of %d keys: the key just stored is not found", n); bad = 1; }
+            free(d);
+            d = t->get_by_obj(t, &keys[0], 4, &sz); if (!d) { vc_viol("image:get-missing", "chain of %d keys: the first key is no longer found", n); bad = 1; } free(d);
+            int mx, us, num = t->size(t, &mx, &us);
+            if (num != n || us != n || mx != M) { vc_viol("space:accounting", "chain of %d keys: size triple (%d,%d,%d)", n, num, mx, us); bad = 1; }
+            if (bad) break;
+            n_trans++;
+        }
+        /* every key of the chain, at the block boundaries and around the 15/16-bit limits of the counter */
+        if (!bad && (hi == L || hi % 8192 == 0 || (hi >= 32767 - step && hi <= 32768 + step))) {
+            int lost = 0; for (int j = 0; j < stored; j++) { char *d = t->get_by_obj(t, &keys[j], 4, NULL); if (!d) lost++; free(d); }
+            if (lost) { vc_viol("image:get-missing", "chain of %d keys with one home slot: %d of them are not found any more (size() still %d)", stored, lost, t->size(t, NULL, NULL)); bad = 1; }
+            n_wf++;
+        }
+        if (vc_asan_check()) { vc_viol("asan:chain", "sanitizer report with a chain of %d keys", stored); bad = 1; }
+        vc_case_end();
+        if (vc_deadline_hit()) { vc_exhaustive = 0; break; }
+    }
+    if (!bad && stored >= 1) {   /* take the chain down again from the head: every removal promotes a collision key */
+        if (vc_case("qhasharr_remove_by_obj", "hasharr-chain:remove")) {
+            for (int j = 0; j < stored && j < 40000; j += (j < 64 || j > stored - 64) ? 1 : 997) { if (!t->remove_by_obj(t, &keys[j], 4)) { vc_viol("image:remove-result", "chain of %d keys: remove of key %d failed", stored, j); break; } n_trans++; }
+            vc_case_end();
+        }
+    }
+    vc_stat_add("transitions", n_trans); vc_stat_add("states", stored); vc_stat_add("chain_length_reached", stored); vc_stat_add("wellformed_checks", n_wf);
+    vc_sample("%d distinct 4-byte keys with home slot 0 in a table of %d slots: put, get of newest and oldest, size after every put; all keys at 32767/32768", stored, M);
+    t->free(t); free(blk); free(keys);
+}
 static int worker(int argc, char **argv) {
-    if (vc_replay_key) { if (!strcmp(vc_replay_key, "hasharr-bigkey")) { bigkey(); return 0; } if (!strncmp(vc_replay_key, "hasharr-ctor:", 13)) { vc_viol_print_per_class = 5; ctor_family(4096); return 0; } return replay(vc_replay_key); }
+    if (vc_replay_key) { if (!strcmp(vc_replay_key, "hasharr-bigkey")) { bigkey(); return 0; } if (!strncmp(vc_replay_key, "hasharr-chain:", 14)) { vc_replay_key = NULL; vc_viol_print_per_class = 5; vc_hang_ticks = 1200; chain_family(33000); return 0; } if (!strncmp(vc_replay_key, "hasharr-ctor:", 13)) { vc_viol_print_per_class = 5; ctor_family(4096); return 0; } return replay(vc_replay_key); }
     if (argc < 2) return 1;
     if (!strcmp(argv[1], "bigkey")) { bigkey(); return 0; }
     if (!strcmp(argv[1], "ctor")) { ctor_family(atoi(argv[2])); return 0; }
+    if (!strcmp(argv[1], "chain")) { vc_hang_ticks = 120; chain_family(atoi(argv[2])); return 0; }
     M = atoi(argv[1]); setup();
     char ks[256], *p = ks; for (int k = 0; k < NK; k++) p += sprintf(p, "%s(home %d) ", KEYS[k], HOME[k]);
     printf("NOTE\tM=%d slot=%zu bytes region=%zu keys: %s\n", M, sizeof(qhasharr_slot_t), REGSZ, ks);
